@@ -285,6 +285,37 @@ func CheckC12(c C12Case, rec *Rec) error {
 			}
 		}
 	}
+	// 3. a fast solver assembled with the public constructor (every link an ordinary connection, also those of the bias
+	// neurons; the form a model file holds): the same three ways of activation
+	for _, r := range runs {
+		solver := c.Net.BuildSolverDirect()
+		if err = solver.LoadSensors(c.Inputs); err != nil {
+			return fmt.Errorf("fast LoadSensors (solver from the constructor): %v", err)
+		}
+		if err = r.f(solver); err != nil {
+			return fmt.Errorf("%s (solver from the constructor): %v", r.name, err)
+		}
+		if err = compareOutputs(r.name+" (solver assembled with the public constructor)", solver.ReadOutputs(), ref); err != nil {
+			return err
+		}
+		if ref2 != nil {
+			if c.Flush2 {
+				if _, err = solver.Flush(); err != nil {
+					return fmt.Errorf("fast Flush (solver from the constructor): %v", err)
+				}
+			}
+			if err = solver.LoadSensors(c.Inputs2); err != nil {
+				return fmt.Errorf("fast LoadSensors (solver from the constructor, second vector): %v", err)
+			}
+			if err = r.f(solver); err != nil {
+				return fmt.Errorf("%s (solver from the constructor, second vector): %v", r.name, err)
+			}
+			if err = compareOutputs("second input vector, "+r.name+" (solver assembled with the public constructor)", solver.ReadOutputs(), *ref2); err != nil {
+				return err
+			}
+		}
+	}
+	rec.Class("fast solver assembled with the public constructor")
 	if c.Tuned {
 		n3, err := fresh()
 		if err != nil {
